@@ -93,6 +93,33 @@ EXTRA_MAPPINGS = ("odict", "ddict", "mproxy", "mdproxy")
 MAPPING_FORMS = ("dict", "mdict", "cimdict", "kwargs", "mapping") + EXTRA_MAPPINGS
 
 
+# every flavour of 'sequence of pairs': the statement names the argument FORM, not two concrete container types
+SEQ_FORMS = ("list", "tuple", "deque", "userlist", "roseq", "listsub")
+
+
+class ROSequence(collections_abc.Sequence):
+    """A Sequence that is neither list nor tuple."""
+
+    def __init__(self, items):
+        self._l = list(items)
+
+    def __getitem__(self, i):
+        return self._l[i]
+
+    def __len__(self):
+        return len(self._l)
+
+    def __eq__(self, other):
+        return isinstance(other, ROSequence) and self._l == other._l
+
+    def __repr__(self):
+        return f"ROSequence({self._l!r})"
+
+
+class ListSub(list):
+    pass
+
+
 def arg_pairs(form, arg, op):
     """Expected list(s) of pairs contributed by the argument: returns a list of
     alternatives (each a list of pairs); raises Reject."""
@@ -113,7 +140,7 @@ def arg_pairs(form, arg, op):
             else:
                 out.append((str(k), render(v)))
         return [out]
-    if form in ("list", "tuple"):
+    if form in SEQ_FORMS:
         out = []
         for pair in arg:
             k, v = pair
@@ -198,6 +225,14 @@ def build_arg(form, pairs):
         return [tuple(p) for p in pairs]
     if form == "tuple":
         return tuple(tuple(p) for p in pairs)
+    if form == "deque":
+        return collections.deque(tuple(p) for p in pairs)
+    if form == "userlist":
+        return collections.UserList(tuple(p) for p in pairs)
+    if form == "roseq":
+        return ROSequence(tuple(p) for p in pairs)
+    if form == "listsub":
+        return ListSub(tuple(p) for p in pairs)
     raise AssertionError(form)
 
 
@@ -243,6 +278,8 @@ def run_case(ctx, old_qs, op, form, arg, sig_extra=(), base_text="http://example
     case = {"url": url_text, "op": op, "form": form, "arg": _argjson(arg)}
     if form in EXTRA_MAPPINGS or form == "mapping":
         case["pairs"] = _argjson(list(arg.items()))
+    elif form in SEQ_FORMS[2:]:
+        case["pairs"] = _argjson([tuple(p) for p in arg])
     if encoded:
         case["encoded"] = True
     lenient_old = False
@@ -380,7 +417,7 @@ def run_kernel(ctx):
     for old in olds:
         for new in news:
             for op in ("with_query", "extend_query", "update_query", "mod"):
-                for form in ("str", "dict", "mdict", "cimdict", "list", "tuple", "kwargs", "mapping"):
+                for form in ("str", "dict", "mdict", "cimdict", "list", "tuple", "kwargs", "mapping", "deque", "userlist", "roseq", "listsub"):
                     i += 1
                     if not ctx.mine(i):
                         continue
@@ -522,7 +559,7 @@ def run_random(ctx):
             arg = tuple(key() for _ in range(r.randint(0, 3)))
             run_case(ctx, old, op, "args", arg, ("r",))
             continue
-        form = r.choice(["str", "dict", "mdict", "cimdict", "list", "tuple", "kwargs", "none", "mapping", "odict", "ddict", "mproxy", "mdproxy"])
+        form = r.choice(["str", "dict", "mdict", "cimdict", "list", "tuple", "kwargs", "none", "mapping", "odict", "ddict", "mproxy", "mdproxy", "deque", "userlist", "roseq", "listsub"])
         n = r.randint(0, 3)
         if form == "none":
             arg = None
